@@ -46,7 +46,7 @@ REQUIRED_THEOREMS = [
     # theorems restated about it end to end
     "step_set", "dispGet_spec", "step_get", "step_upd", "step_clear", "step_asArray", "step_noattr", "createAttribute_good",
     "step_create", "step_delete", "step_cclear", "dispatchExpand_good", "grow_some", "step_grow",
-    "registerArray_spec2", "registerArray_newaxis", "registerArray_spec", "registerArray_bad_shape",
+    "typeDtype_bridge", "contInit_bridge", "srcInit_by_code", "registerArray_spec2", "registerArray_newaxis", "registerArray_spec", "registerArray_bad_shape",
     "srcStep_bridge", "srcRunObs_bridge", "src_dense_refines", "src_sparse_refines", "src_sparse_dense_agree",
 ]
 TRUSTED = [
@@ -63,7 +63,8 @@ TRUSTED = [
     "operation of a script carried out by the translated definitions, the way the harness drives the library) is proved to give the "
     "observations and states of the hand model (srcStep_bridge / srcRunObs_bridge), so that dense_refines / sparse_refines / "
     "sparse_dense_agree are stated about translated code end to end (Props/C05SourceRun.lean); [round 6] register_array_as_attribute "
-    "(repaired) is translated too (caller array = a heap object with its dtype facts, `ArrIn`) and specified by registerArray_spec",
+    "(repaired) is translated too (caller array = a heap object with its dtype facts, `ArrIn`) and specified by registerArray_spec; "
+    "[round 7] Type.dtype and the two container constructors are translated: no function of the two anchor files is hand-modelled any more",
     "values are compared after widening to the attribute's type (True == 1 == 1.0 in Python); numpy view/copy rules are "
     "observed from outside (reads followed by in-place item assignment, also through read results kept alive across later "
     "writes / growth / clear, and through vectors the caller wrote)",
@@ -1260,7 +1261,7 @@ SOURCE_MAP = {
     _A + "_BaseAttribute.Type.from_string": "out-of-scope: file-format type names (C04)",
     _A + "_BaseAttribute.Type.to_string": "out-of-scope: file-format type names (C04)",
     _A + "_BaseAttribute.Type.byte_size": "out-of-scope: file-format sizes (C04)",
-    _A + "_BaseAttribute.Type.dtype": "modelled",                      # widening castTo; `dtype=self.type.dtype` is required at every np.full site
+    _A + "_BaseAttribute.Type.dtype": "translated",    # typeDtype; typeDtype_bridge (round 7)  ; old note:                      # widening castTo; `dtype=self.type.dtype` is required at every np.full site
     _A + "_BaseAttribute.Type.default_value": "translated",           # zeroTable / typeDefaultValue; gen_zero_eq, init_bridge
     _A + "_BaseAttribute._can_be_casted": "translated",               # castPairs / canCast; gen_canCast_eq
     _A + "_BaseAttribute.__init__": "out-of-scope: never called (both storage classes define their own __init__ without super())",
@@ -1288,7 +1289,7 @@ SOURCE_MAP = {
     _A + "ArrayAttribute.__iter__": "out-of-scope: iteration over the rows, not part of the statement",
     _A + "ArrayAttribute.as_array": "translated",       # denseAsArray; denseAsArray_bridge
     _A + "ArrayAttribute.clear": "translated",          # denseClear; denseClear_bridge
-    _D + "_BaseDataContainer.__init__": "modelled",     # empty `_attr` dict (Model.Attr.init)
+    _D + "_BaseDataContainer.__init__": "translated",   # baseContInit; contInit_bridge (round 7)
     _D + "_BaseDataContainer.empty": _OOS_ABS, _D + "_BaseDataContainer.clear": _OOS_ABS, _D + "_BaseDataContainer.append": _OOS_ABS,
     _D + "_BaseDataContainer.attributes": "out-of-scope: key view of the attribute dict",
     _D + "_BaseDataContainer.create_attribute": "translated",     # createAttribute; createAttribute_bridge
@@ -1296,7 +1297,7 @@ SOURCE_MAP = {
     _D + "_BaseDataContainer.delete_attribute": "translated",     # deleteAttribute; deleteAttribute_bridge
     _D + "_BaseDataContainer.has_attribute": "translated",        # hasAttribute; hasAttribute_len_bridge
     _D + "_BaseDataContainer.get_attribute": "translated",        # getAttribute; getAttribute_bridge
-    _D + "DataContainer.__init__": "modelled",                    # `_data` list (Model.Attr.init: only its length matters)
+    _D + "DataContainer.__init__": "translated",                  # contInit; contInit_bridge, srcInit_by_code (round 7)
     _D + "DataContainer.__getitem__": "out-of-scope: element access, not attributes",
     _D + "DataContainer.__setitem__": "out-of-scope: element access, not attributes",
     _D + "DataContainer.__iter__": "out-of-scope: element access, not attributes",
